@@ -1,32 +1,73 @@
 // Correspondence harness: runs the real raqote crate (path dependency on /repo, rebuilt from the
 // current working tree, hooks on) on case lines read from stdin and prints one result line per
 // case in the same format as the extracted model's driver.
-use raqote::*;
+// Every case runs on a worker thread under a watchdog: a case that does not finish within
+// RQV_CASE_TIMEOUT_MS (default 10000) is reported as `<id> hang` and its thread is abandoned.
 use std::io::{BufRead, Write};
-use std::panic::{catch_unwind, AssertUnwindSafe};
+use std::sync::mpsc;
+use std::time::Duration;
 
 mod util;
 mod surface;
 mod scene;
+mod pathops;
+
+fn run_line(line: &str, aug: bool) -> String {
+    let toks: Vec<&str> = line.split_whitespace().collect();
+    if toks.is_empty() {
+        return String::new();
+    }
+    match toks[0] {
+        "surf" => surface::run(&toks[1..]),
+        "scene" => scene::run(&toks[1..], aug),
+        k @ ("pcontains" | "pflatten" | "pdash" | "pstroke" | "prect" | "ptransform" | "parc") => pathops::run(k, &toks[1..], aug),
+        k => panic!("unknown case kind {}", k),
+    }
+}
+
+fn spawn_worker(aug: bool) -> (mpsc::Sender<String>, mpsc::Receiver<String>) {
+    let (tx_line, rx_line) = mpsc::channel::<String>();
+    let (tx_res, rx_res) = mpsc::channel::<String>();
+    std::thread::Builder::new().stack_size(64 << 20).spawn(move || {
+        for line in rx_line {
+            let r = std::panic::catch_unwind(|| run_line(&line, aug)).unwrap_or_else(|_| {
+                let id = line.split_whitespace().nth(1).unwrap_or("?").to_string();
+                format!("{} panic", id)
+            });
+            if tx_res.send(r).is_err() {
+                break;
+            }
+        }
+    }).unwrap();
+    (tx_line, rx_res)
+}
 
 fn main() {
     if std::env::var("RQV_VERBOSE").is_err() {
         std::panic::set_hook(Box::new(|_| {}));
     }
     let aug = std::env::args().nth(1).map(|a| a == "aug").unwrap_or(false);
+    let timeout = std::env::var("RQV_CASE_TIMEOUT_MS").ok().and_then(|v| v.parse().ok()).unwrap_or(10000u64);
     let stdin = std::io::stdin();
     let stdout = std::io::stdout();
     let mut out = std::io::BufWriter::new(stdout.lock());
+    let (mut tx, mut rx) = spawn_worker(aug);
     for line in stdin.lock().lines() {
         let line = line.unwrap();
-        let toks: Vec<&str> = line.split_whitespace().collect();
-        if toks.is_empty() {
+        if line.trim().is_empty() {
             continue;
         }
-        let res = match toks[0] {
-            "surf" => surface::run(&toks[1..]),
-            "scene" => scene::run(&toks[1..], aug),
-            k => panic!("unknown case kind {}", k),
+        tx.send(line.clone()).unwrap();
+        let res = match rx.recv_timeout(Duration::from_millis(timeout)) {
+            Ok(r) => r,
+            Err(_) => {
+                // abandon the stuck worker
+                let w = spawn_worker(aug);
+                tx = w.0;
+                rx = w.1;
+                let id = line.split_whitespace().nth(1).unwrap_or("?").to_string();
+                if aug { line.clone() } else { format!("{} hang", id) }
+            }
         };
         writeln!(out, "{}", res).unwrap();
         out.flush().unwrap();
